@@ -268,7 +268,7 @@ func (c *engineCampaign) run(r *Result) {
 				r.count("corpus")
 			}
 		}
-		for i := w * per; i < (w+1)*per && i < n; i++ {
+		for i := w * per; i < (w+1)*per && i < n && !expired(); i++ {
 			g := &engineGen{r: rng, prefix: fmt.Sprintf("e%d.", i), MaxBlocks: 3, MaxSeqs: 4, MaxActs: 3, PGroup: 0.45, PFail: 0.15, PCheckBad: 0.12,
 				Retries: 2, ContMode: "pass", DelayUs: 300, ConcMax: 3}
 			c.gen(i, g)
